@@ -37,7 +37,8 @@ def _replay(name, law):
             "inverse": "bad = not same(float(t.membership(z)), y, tol)",
             "mono_inc": "bad = y <= y2 and not (z <= z2 + tol * max(1.0, abs(z)))",
             "mono_dec": "bad = y <= y2 and not (z >= z2 - tol * max(1.0, abs(z)))",
-            "arrays": "r = t.tsukamoto(np.array([y, y2])); bad = not same(r, [z, z2], 0.0)",
+            "arrays": "ya = np.array([y, y2]); r = t.tsukamoto(ya); y0d = np.array(y); t.tsukamoto(y0d);"
+                      " bad = not same(r, [z, z2], 0.0) or not same(ya, [y, y2]) or not same(y0d, y)",
         }[law])
         lines.append(f"verdict(bad, '{name}.{law}: tsukamoto(%r) = %r, membership back = %r; tsukamoto(%r) = %r' % (y, z, float(t.membership(z)), y2, z2))")
         return "\n".join(lines)
